@@ -351,6 +351,23 @@ def run_case(inp):
                 V("no-error", f"composition raised {type(e).__name__}: {str(e)[:100]}")
             P, Q = p(scale), q(scale)
             A, B = a(img, scale), b(img, scale)
+            # boolean-valued pipelines (comparisons with a scalar) under the identity scalars 0 and 1, then more arithmetic:
+            # voxel-wise like numpy, i.e. `mask * 1.0 + mask * 1.0` counts (0 / 1 / 2), `sum([m1, m2])` too
+            try:
+                thr = float(np.median(np.asarray(P)))
+                Pm, Qm = np.asarray(P) > thr, np.asarray(Q) > thr
+                exprs = [("(p > t) * 1.0 + (q > t) * 1.0", (p > thr) * 1.0 + (q > thr) * 1.0, Pm * 1.0 + Qm * 1.0),
+                         ("((p > t) + 0) + (q > t)", ((p > thr) + 0) + (q > thr), (Pm + 0) + Qm),
+                         ("sum([p > t, q > t])", sum([p > thr, q > thr]), sum([Pm, Qm])),
+                         ("1 * (p > t) - (q > t) / 1", 1 * (p > thr) - (q > thr) / 1, 1 * Pm - Qm / 1),
+                         ("((p > t) - 0) * 2", ((p > thr) - 0) * 2, (Pm.astype(np.int8) - 0) * 2)]
+                for label, pipe_e, want in exprs:
+                    got = np.asarray(pipe_e(scale))
+                    if got.shape != want.shape or not np.array_equal(got.astype(np.float64), np.asarray(want, dtype=np.float64)):
+                        V("voxelwise", f"{label}: the pipeline gives values {np.unique(got.astype(np.float64)).tolist()[:4]}, voxel-wise "
+                                       f"numpy arithmetic {np.unique(np.asarray(want, dtype=np.float64)).tolist()[:4]}")
+            except Exception as e:  # noqa: BLE001
+                V("no-error", f"arithmetic on boolean-valued pipelines raised {type(e).__name__}: {str(e)[:100]}")
             s = float(r.choice([2.0, -1.5, 0.25, 3.0]))
             import operator as O
             table = [("+", O.add), ("-", O.sub), ("*", O.mul), ("/", O.truediv), ("==", O.eq), ("!=", O.ne),
